@@ -22,6 +22,7 @@ Added after the seeding rounds (DESIGN.md 6.6-6.8):
  LOG.arm / RPY.gate / POWER arms / AXANG paths  every inequality-guarded arm agrees with the generic closed form on the inputs that reach it; pole gates capture
             only |pitch| within 1e-6 rad of 90 deg; from_axisangle with a non-unit axis.
 Added after seeding rounds 5 and 6 and refactoring round 4 (DESIGN.md 6.10-6.12):
+ LIMIT-ARM  (round 8) the constant arms of Quaternion.exponential/logarithm (limit values) are guarded by exact tests, predicate methods inlined.
  LOG.sample  closed form of DCM.log on the decision path of sample rotations (36 quick / 204 thorough).
 """
 import ast
@@ -638,6 +639,52 @@ def canaries(chk, prog):
             chk.canary(name, False, "crashed: %s: %s" % (type(e).__name__, e))
 
 
+
+def limit_arm_exact(chk, prog):
+    """LIMIT-ARM: in Quaternion.exponential / logarithm an arm that returns a constant array (the identity for a real quaternion, zeros for a null vector part) is
+    the *limit value* of the closed form, exact only at the limit itself.  Its guard therefore has to be an exact test; a tolerance test (isclose / allclose,
+    possibly inside the predicate method the guard calls) hands the limit value to every input within the band - for `is_real` with isclose(|w|, |q|) that is every
+    rotation below 4e-3 rad of a non-unit quaternion, where exp(log(q)) then returns the identity instead of q."""
+    cls = prog.cls("ahrs/common/quaternion.py::Quaternion")
+    n = 0
+    for name in ("exponential", "logarithm"):
+        f = cls.methods.get(name)
+        if f is None:
+            chk.error("LIMIT-ARM: Quaternion.%s vanished" % name)
+            continue
+        chk.touch(f)
+        for node in ast.walk(f.node):
+            if not (isinstance(node, ast.If) and node.body and isinstance(node.body[-1], ast.Return) and node.body[-1].value is not None):
+                continue
+            rv = node.body[-1].value
+            const_arm = isinstance(rv, ast.Call) and ast.unparse(rv.func).split(".")[-1] in ("array", "zeros", "ones") and \
+                not any(isinstance(x, (ast.Name, ast.Attribute)) and not (isinstance(x, ast.Name) and x.id in ("np", "numpy")) and not (isinstance(x, ast.Attribute) and isinstance(x.value, ast.Name) and x.value.id in ("np", "numpy"))
+                        for a in list(rv.args) + [k.value for k in rv.keywords] for x in ast.walk(a))
+            if not const_arm:
+                continue
+            n += 1
+            exprs = [node.test]
+            for c in ast.walk(node.test):
+                if isinstance(c, ast.Call) and isinstance(c.func, ast.Attribute) and isinstance(c.func.value, ast.Name) and c.func.value.id == "self":
+                    g = cls.lookup(c.func.attr)
+                    if g is not None:
+                        chk.touch(g)
+                        exprs.extend(r.value for r in ast.walk(g.node) if isinstance(r, ast.Return) and r.value is not None)
+                        exprs.extend(s_.value for s_ in ast.walk(g.node) if isinstance(s_, ast.Assign))
+            tol = [x for e in exprs for x in ast.walk(e) if isinstance(x, ast.Call) and ast.unparse(x.func).split(".")[-1] in ("isclose", "allclose")]
+            site = "%s::if %s" % (f.ref, ast.unparse(node.test)[:50])
+            if tol:
+                why = "the arm `return %s` is the limit value of the closed form, but its guard `%s` is decided with a tolerance (%s): every quaternion within the band gets the limit " \
+                      "value instead of the closed form, so exp(log(q)) = q fails for small rotations" % (ast.unparse(rv)[:40], ast.unparse(node.test)[:40], ast.unparse(tol[0])[:60])
+                chk.record("LIMIT-ARM", site, "a constant (limit) arm is guarded by an exact test", verdict="VIOLATION", detail=why)
+                chk.finding("LIMIT-ARM", f.module.rel, f.qname, "tolerance-guarded limit arm: if %s" % ast.unparse(node.test)[:50], why, line=node.lineno)
+            else:
+                chk.record("LIMIT-ARM", site, "the constant (limit) arm is taken only on an exact test of the components")
+    if n < 2:
+        chk.error("LIMIT-ARM: %d constant arms found in Quaternion.exponential/logarithm, 2 confirmed by hand" % n)
+    chk.count("LIMIT-ARM", 0)
+
+
 def run(chk, prog, tier):
     rpy(chk, prog)
     axang(chk, prog)
@@ -646,6 +693,7 @@ def run(chk, prog, tier):
     euler(chk, prog)
     unit_options(chk, prog)
     dcm_log(chk, prog, tier)
+    limit_arm_exact(chk, prog)
     chk.require_count("RPY", 3)
     chk.require_count("EULER.sequence", 8)
     canaries(chk, prog)
